@@ -256,6 +256,76 @@ def probe(hist):
         rt.SPIN_LIMIT = old
 
 
+def services_one(kind, n, fill, refuse, seed_key, keep=False):
+    """truncated frames for the paths behind the transport protocol - address claim for the stack's own address, request,
+    DM14 / DM15 / DM16, DM1 - with 0..7 data bytes, fed to a stack that runs an operational CA, a memory-access server (whose
+    application refuses or serves) and a DM1 subscriber; afterwards the CA still holds its address, a well-formed memory read by
+    a real client succeeds and a well-formed DM1 reaches the subscriber.  Exceptions to the caller are allowed."""
+    from ..dm14 import DmWorld, SRV, CLI, mem_bytes
+    from .c17 import rd
+    from ..net import j1939
+    d = DmWorld({'seed': 0xA55A if seed_key else None})
+    try:
+        w = d.w
+        got_dm1 = []
+        dm1 = j1939.Dm1(d.sca)
+        dm1.subscribe(lambda sa, lamps, dtcs, ts: got_dm1.append((sa, len(dtcs))))
+        g = d.bus.ghost_node()
+        pf, da, sa = {'claim': (0xEE, 0xFF, SRV), 'request': (0xEA, SRV, 0x99), 'dm14': (0xD9, SRV, 0x99), 'dm15': (0xD8, SRV, 0x99),
+                      'dm16': (0xD7, SRV, 0x99), 'dm1': (0xFE, 0xCA, 0x99)}[kind]
+        d.cur = {'variant': 'refuse_proceed'} if refuse else {}
+        raised = []
+        orig = d.S.handle
+
+        def guarded(fr):
+            try:
+                orig(fr)
+            except Exception as e:          # noqa: legal for a malformed frame (the real MessageListener contains it as well)
+                raised.append(type(e).__name__)
+        d.S.handle = guarded
+        g.send((6 << 26) | (pf << 16) | (da << 8) | sa, bytes([fill] * n))
+        w.run_for(0.01)
+        d.S.handle = orig
+        probs = []
+        if d.sca.state != j1939.ControllerApplication.State.NORMAL or d.sca.device_address != SRV:
+            probs.append("a truncated %s frame (%d bytes) took the CA's address away (state %r, address %r)" % (kind, n, d.sca.state, d.sca.device_address))
+        else:
+            op = rd(0x1000, 4)
+            d.run([op])
+            r = d.results[0] if d.results else {}
+            if r.get('ret') != mem_bytes(0x1000, 4):
+                probs.append("after a truncated %s frame (%d bytes) a well-formed memory read does not succeed any more: %r"
+                             % (kind, n, r.get('exc', r.get('ret'))))
+            g.send((6 << 26) | (0xFE << 16) | (0xCA << 8) | 0x77, bytes([0x04, 0xFF, 0x64, 0x00, 0x03, 0x01, 0xFF, 0xFF]))
+            w.run_for(0.01)
+            if got_dm1[-1:] != [(0x77, 1)]:
+                probs.append("after a truncated %s frame (%d bytes) a well-formed DM1 does not reach the subscriber: %r" % (kind, n, got_dm1[-2:]))
+        for lt in w.threads:
+            if lt.exc is not None:
+                probs.append("%s died: %s" % (lt.name, lt.exc_type))
+        return probs, [f.brief() for f in d.bus.log] + ["raised to the caller: %r" % raised] if keep else None
+    finally:
+        d.close()
+
+
+def services_worker(item):
+    _k, kind = item
+    acc = Acc()
+    for n in range(0, 8):
+        for fill in (0x00, 0xFF):
+            for refuse in (False, True):
+                for seed_key in (False, True):
+                    if kind not in ('dm14',) and (refuse or seed_key):
+                        continue
+                    probs, _ = services_one(kind, n, fill, refuse, seed_key)
+                    sc = {'services': {'kind': kind, 'n': n, 'fill': fill, 'refuse': refuse, 'seed_key': seed_key}, 'history': [], 'cfg': ['services']}
+                    acc.transitions += 1
+                    if probs:
+                        import re
+                        acc.violation(re.sub(r'\(\d+ bytes\)', '(N bytes)', probs[0].split(':')[0]), sc, None, probs[:3])
+    return acc
+
+
 def csig(probs):
     p = probs[0]
     if p.startswith('follow-up transfer not delivered'):
@@ -353,6 +423,17 @@ def run(tier, seed):
                             "('f', can id, data hex) = frame from the bus, ('send', kind) = local send_pgn, ('gap', seconds))"})
             for dig in r['seen']:
                 nontrivial.add(hash(dig))
+        # the paths behind the transport protocol: truncated claim / request / DM frames
+        from ..runner import make_pool, pmap
+        pool = make_pool(6)
+        try:
+            for a in pmap(pool, services_worker, [('services', k) for k in ('claim', 'request', 'dm14', 'dm15', 'dm16', 'dm1')]):
+                acc.transitions += a.transitions
+                acc.violations.extend(a.violations)
+        finally:
+            pool.close()
+            pool.join()
+        acc.evals = acc.transitions
     except RuntimeError as e:
         print("HARNESS-ERROR property=%s\n%s" % (PROP, e))
         return 2
@@ -365,6 +446,16 @@ def run(tier, seed):
 
 def replay(rec):
     sc = rec['scenario']
+    if sc.get('services'):
+        x = sc['services']
+        probs, trace = services_one(x['kind'], x['n'], x['fill'], x['refuse'], x['seed_key'], keep=True)
+        print("\n".join(trace))
+        if probs:
+            print("REPRODUCED: " + "; ".join(probs))
+            print("VIOLATION property=%s replay=(this file)" % PROP)
+            return 1
+        print("no violation on this tree")
+        return 0
     hist = [tuple(x) if isinstance(x, list) else x for x in sc['history']]
     hist = [tuple(h) for h in hist]
     b = Built(hist)
